@@ -15,6 +15,7 @@
         final response carries the URL of the last hop.
   Helper lemmas: Atto/Lemmas/Redirect.lean; example data: Atto/Lemmas/RedirectExamples.lean.
 -/
+import Atto.Gen.Consts
 import Atto.Lemmas.Redirect
 import Atto.Lemmas.RedirectExamples
 namespace Atto
@@ -352,5 +353,18 @@ example (out : HopOut) (h : (send (rx_settings true 5) rx_req 64 rx_a rx_chain).
     rw [e] at hu; exact (Option.some.inj hu).symm
   subst this
   exact (hn (by decide +kernel)).1
+
+
+/-- Tie to the source: the model's set of followed statuses is the `matches!` list extracted from
+    `PreparedRequest::send` on this run (`Gen/Consts.lean`), and that list is exactly the five
+    statuses of the statement. -/
+theorem C09_redirect_table :
+    Consts.redirectStatuses.Perm [301, 302, 303, 307, 308] ∧
+    ∀ s, isRedirectStatus s = Consts.redirectStatuses.contains s := by
+  refine ⟨by decide, ?_⟩
+  intro s
+  simp only [isRedirectStatus, Consts.redirectStatuses, List.contains, List.elem]
+  cases h1 : s == 301 <;> cases h2 : s == 302 <;> cases h3 : s == 303 <;> cases h4 : s == 307 <;>
+    cases h5 : s == 308 <;> simp_all
 
 end Atto
